@@ -176,6 +176,31 @@ func (e *Engine) VerifyFunc(fc *FuncContract) *FuncResult {
 			c.errorf("loop %d has a contract but the function has %d loops", n, len(fr.loops))
 		}
 	}
+	// ensures_always: the panic edges.  A call that may panic leaves the heap in an unknown state (the callee
+	// was somewhere in its body); the deferred calls armed at that point then run, last first, and the
+	// clause must hold afterwards.  (A panic raised by a deferred call itself is not followed further.)
+	for _, pp := range c.panicPts {
+		s := pp.st
+		c.havocAll(s)
+		fr.curBlock = pp.blk
+		fr.runDefers(s)
+		pe := &Env{c: c, vars: map[string]Term{}, cur: s, old: c.entry, pkg: fc.PkgPath}
+		for k, v := range c.params {
+			pe.vars[k] = v
+		}
+		for k, v := range c.lets {
+			pe.vars[k] = v
+		}
+		for _, ens := range fc.EnsuresAlways {
+			g, err := pe.EvalBool(ens.E)
+			if err != nil {
+				c.errorf("ensures_always %q: %v", ens.Src, err)
+				continue
+			}
+			o := c.obligation("post-panic", ens.Label, pp.pos, "ensures_always "+ens.Src, s.reach, g, ens.Props)
+			o.Note = "if the call to " + shortFuncName(pp.callee) + " panics: after the deferred calls armed at this point have run"
+		}
+	}
 	// postconditions and frame at each return
 	sig := fn.Signature
 	var retReach []string
@@ -495,4 +520,74 @@ func sortedKeys(m map[string]string) []string {
 	}
 	sort.Strings(ks)
 	return ks
+}
+
+// VerifyFinal checks a "final pkg.Type.field" declaration: no instruction of the module stores into that field
+// except through an object allocated in the same function (the object under construction).  Decided
+// syntactically over the SSA of every module function; the result is reported as one obligation.
+func (e *Engine) VerifyFinal(fd *FinalDef) *FuncResult {
+	res := &FuncResult{Func: "final " + fd.Field, Key: "final:" + fd.Field, Props: fd.Props}
+	var bad []string
+	seen := false
+	for _, fn := range e.allFuncs() {
+		for _, b := range fn.Blocks {
+			for _, ins := range b.Instrs {
+				fa, ok := ins.(*ssa.FieldAddr)
+				if !ok {
+					continue
+				}
+				pt, ok := types.Unalias(fa.X.Type()).Underlying().(*types.Pointer)
+				if !ok {
+					continue
+				}
+				st, ok := structOf(pt.Elem())
+				if !ok {
+					continue
+				}
+				if fieldKey(pt.Elem(), st.Field(fa.Field).Name()) != fd.Key {
+					continue
+				}
+				seen = true
+				if fa.Referrers() == nil {
+					continue
+				}
+				for _, r := range *fa.Referrers() {
+					switch x := r.(type) {
+					case *ssa.Store:
+						if x.Addr != fa {
+							continue
+						}
+						if _, isAlloc := fa.X.(*ssa.Alloc); isAlloc {
+							continue
+						}
+						p, line := e.srcLine(x.Pos())
+						bad = append(bad, fmt.Sprintf("%s: %s (%s)", p, line, fn.String()))
+					case *ssa.UnOp, *ssa.DebugRef:
+					case *ssa.Call:
+						// the address of the field handed to a callee: module callees could write through it
+						if cal := x.Common().StaticCallee(); cal != nil && cal.Pkg != nil && strings.HasPrefix(cal.Pkg.Pkg.Path(), modulePath) {
+							p, line := e.srcLine(x.Pos())
+							bad = append(bad, fmt.Sprintf("%s: address passed to %s: %s", p, cal.String(), line))
+						}
+					default:
+						p, line := e.srcLine(r.Pos())
+						bad = append(bad, fmt.Sprintf("%s: address of the field escapes: %s (%s)", p, line, fn.String()))
+					}
+				}
+			}
+		}
+	}
+	o := &Obligation{Name: "final " + fd.Field + "/only-constructors-write", Kind: "final", Func: "final " + fd.Field,
+		Pos: fmt.Sprintf("%s:%d", fd.File, fd.Line), Src: "final " + fd.Field, Static: true, Solver: "syntactic scan of the module's SSA"}
+	if !seen {
+		res.Errs = append(res.Errs, "final "+fd.Field+": no such field is addressed anywhere in the module (renamed or removed?)")
+	}
+	if len(bad) == 0 {
+		o.Result = "proved"
+	} else {
+		o.Result = "failed"
+		o.Model = "the field is written (or its address escapes) outside construction:\n" + strings.Join(bad, "\n")
+	}
+	res.Obls = []*Obligation{o}
+	return res
 }
